@@ -10,6 +10,7 @@ import Rl.Lemmas.EditorGrow
 import Rl.Lemmas.EditorLoops
 import Rl.Lemmas.EditorNextAll
 import Rl.Lemmas.EditorReadRet
+import Rl.Lemmas.EditorRing
 import Rl.Props.C09
 namespace Rl
 open EM
@@ -30,8 +31,8 @@ abbrev RSafe {α : Type} (cfg : EdCfg) (m : EM α) (s : Ed) : Prop :=
     the read invariant together with a cross-step invariant `J` (the facts about the undo log and
     the kill ring that `RdInv` does not hold), and re-establishes both -/
 def ExecSafe (S : Segmenter) (U : UData) (cfg : EdCfg) (J : Ed → Prop) : Prop :=
-  ∀ cmd s, CmdI cfg cmd → RdInv cfg s → J s →
-    wp (execute S U cfg cmd) (fun _ s' => RdInv cfg s' ∧ J s') PE s
+  ∀ cmd s, CmdI cfg cmd → RdInv cfg s → J s → PopPre cfg cmd s →
+    wp (execute S U cfg cmd) (fun _ s' => RdInv cfg s' ∧ J s' ∧ PopI cfg s') PE s
 
 /-- `m` keeps `J` whenever it returns -/
 def KeepsJ {α : Type} (J : Ed → Prop) (m : EM α) : Prop :=
@@ -446,26 +447,50 @@ theorem rsafe_rij {α : Type} {J : Ed → Prop} {P : α → Prop} {m : EM α} (h
     obtain ⟨h1, h2⟩ := hk.h s hi a s' hm
     exact hq a s' hw h1 hj h2
 
+/-- the same with one more fact `X` about the same run -/
+theorem rsafe_rijx {α : Type} {J : Ed → Prop} {P : α → Prop} {X : α → Ed → Prop} {m : EM α} (hk : RT cfg P m) {s : Ed}
+    (hi : RI cfg s) (hw : RSafe cfg m s) (hj : wp m (fun _ s' => J s') (fun _ _ => True) s)
+    (hx : wp m X (fun _ _ => True) s) {Q : α → Ed → Prop}
+    (hq : ∀ a s', RdInv cfg s' → RI cfg s' → J s' → P a → X a s' → Q a s') : wp m Q PE s := by
+  unfold RSafe wp at *
+  cases hm : m s with
+  | error e => rw [hm] at hw; exact hw
+  | ok r =>
+    obtain ⟨a, s'⟩ := r
+    rw [hm] at hw hj hx
+    obtain ⟨h1, h2⟩ := hk.h s hi a s' hm
+    exact hq a s' hw h1 hj h2 hx
+
+/-- a step that keeps the kill ring keeps `NoYank` -/
+theorem wp_noYank {α : Type} {m : EM α} (hk : Keeps Ed.ringOf m) {s : Ed} (h : NoYank s) :
+    wp m (fun _ s' => NoYank s') (fun _ _ => True) s :=
+  wp_mono (hk.wp s) (fun _ _ hr => h.of_ring hr) (fun _ _ _ => trivial)
+
 theorem safe_mainLoop {J : Ed → Prop} (H : RdHyp S U cfg) (K : RdStep S U cfg J) :
-    ∀ (fuel : Nat) (s : Ed), RdInv cfg s → RI cfg s → J s →
+    ∀ (fuel : Nat) (s : Ed), RdInv cfg s → RI cfg s → J s → PopI cfg s →
     RSafe cfg (mainLoop S U cfg fuel) s := by
   intro fuel
   induction fuel with
   | zero =>
-    intro s _ _ _
+    intro s _ _ _ _
     unfold RSafe mainLoop
     simp only [wp_exit]
     intro hh; cases hh
   | succ fuel ih =>
-    intro s h hi hj
+    intro s h hi hj hp
     unfold RSafe mainLoop
     rw [wp_bind]
-    refine rsafe_rij cfg (rt_nextCmd S U cfg H.binds fuel false false) hi
-      (wp_nextCmd_inv S U cfg H.hnp h fun _ _ h1 _ => h1) (K.next fuel s hj) fun cmd0 s1 h1 hi1 hj1 hc0 => ?_
+    refine rsafe_rijx cfg (rt_nextCmd S U cfg H.binds fuel false false) hi
+      (wp_nextCmd_inv S U cfg H.hnp h fun _ _ h1 _ => h1) (K.next fuel s hj)
+      (X := fun _ s' => s'.coreNC = s.coreNC)
+      (wp_mono ((keeps_nextCmd S U cfg fuel false false).wp s) (fun _ _ h => h) (fun _ _ _ => trivial))
+      fun cmd0 s1 h1 hi1 hj1 hc0 hnc => ?_
+    have hp1 : PopI cfg s1 := fun hv =>
+      (hp hv).of_eq (Ed.coreNC_eq hnc).1 (Ed.coreNC_eq hnc).2.2.1
     -- resetting the ring's last action keeps the invariant
     have hreset : ∀ s1 : Ed, RdInv cfg s1 → RdInv cfg { s1 with ring := s1.ring.reset } :=
       fun s1 h1 => ⟨EdWF.mk' h1.1.line h1.1.saved (RingOK.reset h1.1.ring), h1.2⟩
-    have body : ∀ s2 : Ed, RdInv cfg s2 → RI cfg s2 → J s2 →
+    have body : ∀ s2 : Ed, RdInv cfg s2 → RI cfg s2 → J s2 → PopPre cfg cmd0 s2 →
         wp (do
           match ← preCmds S U cfg fuel cmd0 with
           | none => mainLoop S U cfg fuel
@@ -483,46 +508,63 @@ theorem safe_mainLoop {J : Ed → Prop} (H : RdHyp S U cfg) (K : RdStep S U cfg 
               | .proceed => mainLoop S U cfg fuel
               | .submit => pure ())
           (fun _ s' => RdInv cfg s') PE s2 := by
-      intro s2 h2 hi2 hj2
+      intro s2 h2 hi2 hj2 hp2
       rw [wp_bind]
-      refine rsafe_rij cfg (rt_preCmds S U cfg H.binds fuel cmd0 hc0) hi2 (safe_preCmds S U cfg H fuel cmd0 s2 h2)
-        (K.pre fuel cmd0 s2 hj2) ?_
-      intro r s3 h3 hi3 hj3 hr
+      refine rsafe_rijx cfg (rt_preCmds S U cfg H.binds fuel cmd0 hc0) hi2 (safe_preCmds S U cfg H fuel cmd0 s2 h2)
+        (K.pre fuel cmd0 s2 hj2) (pop_preCmds S U cfg fuel cmd0 hp2) ?_
+      intro r s3 h3 hi3 hj3 hr hp3
       cases r with
-      | none => exact ih s3 h3 hi3 hj3
+      | none => exact ih s3 h3 hi3 hj3 hp3
       | some cmd =>
         have hcmd : CmdI cfg cmd := hr cmd rfl
+        have hp3 : PopPre cfg cmd s3 := hp3
         simp only []
         split
         · simp only [wp_bind, wp_modify]
           have h3' : RdInv cfg { s3 with suspends := s3.suspends + 1 } :=
             ⟨EdWF.mk' h3.1.line h3.1.saved h3.1.ring, h3.2⟩
           have hi3' : RI cfg { s3 with suspends := s3.suspends + 1 } := hi3
-          exact rsafe_rij cfg (rt_refreshLine S U cfg) hi3'
+          have hpo : PopI cfg { s3 with suspends := s3.suspends + 1 } := fun hv => ((hp3 hv).1 : PopOK s3)
+          exact rsafe_rijx cfg (rt_refreshLine S U cfg) hi3'
             (wp_refreshLine_inv S U cfg H.hnp h3' fun _ h4 _ => h4) (K.refresh _ (K.susp s3 hj3))
-            fun _ s4 h4 hi4 hj4 _ => ih s4 h4 hi4 hj4
+            (X := fun _ s' => s'.core = ({ s3 with suspends := s3.suspends + 1 } : Ed).core)
+            (wp_mono ((keeps_refreshLine S U cfg).wp _) (fun _ _ h => h) (fun _ _ _ => trivial))
+            fun _ s4 h4 hi4 hj4 _ hc4 => ih s4 h4 hi4 hj4
+              (fun hv => (hpo hv).of_eq (Ed.core_eq hc4).1 (Ed.core_eq hc4).2.2.2.1)
         · split
-          · rw [wp_bind]
-            refine rsafe_rij cfg (RT.of_keeps keeps_inp_nextChar) hi3
-              (wp_nextChar_inv cfg h3 fun _ _ h4 => h4) (K.nextChar s3 hj3) fun c s4 h4 hi4 hj4 _ => ?_
+          · rename_i hq
+            have hn3 : cfg.vi = false → NoYank s3 := fun hv => (hp3 hv).2 (by
+              have : cmd = .quotedInsert := by simpa using hq
+              subst this; rfl)
             rw [wp_bind]
-            exact rsafe_rij cfg (RT.of_keeps (keeps_inp_editInsert S U cfg c 1)) hi4
-              (safe_editInsert_inv S U cfg H.hnp c 1 h4) (K.insert c s4 hj4) fun _ s5 h5 hi5 hj5 _ => ih s5 h5 hi5 hj5
+            refine rsafe_rijx cfg (RT.of_keeps keeps_inp_nextChar) hi3
+              (wp_nextChar_inv cfg h3 fun _ _ h4 => h4) (K.nextChar s3 hj3)
+              (X := fun _ s' => s'.ring = s3.ring)
+              (wp_mono (keeps_ring_nextChar.wp s3) (fun _ _ h => h) (fun _ _ _ => trivial))
+              fun c s4 h4 hi4 hj4 _ hr4 => ?_
+            rw [wp_bind]
+            exact rsafe_rijx cfg (RT.of_keeps (keeps_inp_editInsert S U cfg c 1)) hi4
+              (safe_editInsert_inv S U cfg H.hnp c 1 h4) (K.insert c s4 hj4)
+              (X := fun _ s' => s'.ring = s4.ring)
+              (wp_mono ((keeps_ring_editInsert S U cfg c 1).wp s4) (fun _ _ h => h) (fun _ _ _ => trivial))
+              fun _ s5 h5 hi5 hj5 _ hr5 => ih s5 h5 hi5 hj5
+                (fun hv => (((hn3 hv).of_ring hr4).of_ring hr5).popOK)
           · rw [wp_bind]
-            refine wp_mono (RT.wp_and cfg (RT.of_keeps (keeps_inp_execute S U cfg cmd)) hi3 (K.exec cmd s3 hcmd h3 hj3))
+            refine wp_mono (RT.wp_and cfg (RT.of_keeps (keeps_inp_execute S U cfg cmd)) hi3 (K.exec cmd s3 hcmd h3 hj3 hp3))
               ?_ (fun _ _ h => h)
             intro st s4 h4
-            obtain ⟨⟨h4, hj4⟩, hi4, _⟩ := h4
+            obtain ⟨⟨h4, hj4, hp4⟩, hi4, _⟩ := h4
             cases st with
-            | proceed => exact ih s4 h4 hi4 hj4
+            | proceed => exact ih s4 h4 hi4 hj4 hp4
             | submit => exact h4
     split
     · simp only [wp_bind, wp_modify]
-      have t := body _ (hreset s1 h1) hi1 (K.reset s1 hj1)
+      have t := body _ (hreset s1 h1) hi1 (K.reset s1 hj1) (PopPre.of_noYank cfg (noYank_reset s1))
       simp only [wp_bind] at t
       exact t
     · simp only [wp_bind, wp_pure]
-      have t := body s1 h1 hi1 hj1
+      rename_i hnr
+      have t := body s1 h1 hi1 hj1 (fun hv => ⟨hp1 hv, fun hr => absurd hr hnr⟩)
       simp only [wp_bind] at t
       exact t
 
@@ -544,29 +586,32 @@ theorem readline_panic_only_D43 {J : Ed → Prop} (H : RdHyp S U cfg) (K : RdSte
       (fun _ _ => True) PE (initEd cfg ring input) := by
     have hi0 : RI cfg (initEd cfg ring input) := ⟨by show (-32768 : Int) ≤ 0; omega, by show (0 : Int) ≤ 32767; omega, trivial⟩
     have hj0 : J (initEd cfg ring input) := K.init ring input
-    have rest : ∀ s1 : Ed, RdInv cfg s1 → RI cfg s1 → J s1 →
+    have hn0 : NoYank (initEd cfg ring input) := by intro size h; cases h
+    have rest : ∀ s1 : Ed, RdInv cfg s1 → RI cfg s1 → J s1 → NoYank s1 →
         wp (do
           refreshLine S U cfg
           mainLoop S U cfg (input.size + 2)
           editMove S U cfg (LB.moveBufferEnd S U) : EM Unit)
         (fun _ _ => True) PE s1 := by
-      intro s1 h1 hi1 hj1
+      intro s1 h1 hi1 hj1 hn1
       simp only [wp_bind]
-      refine rsafe_rij cfg (rt_refreshLine S U cfg) hi1
-        (wp_refreshLine_inv S U cfg H.hnp h1 fun _ h2 _ => h2) (K.refresh s1 hj1) fun _ s2 h2 hi2 hj2 _ => ?_
-      refine wp_mono (safe_mainLoop S U cfg H K _ s2 h2 hi2 hj2) ?_ (fun _ _ h => h)
+      refine rsafe_rijx cfg (rt_refreshLine S U cfg) hi1
+        (wp_refreshLine_inv S U cfg H.hnp h1 fun _ h2 _ => h2) (K.refresh s1 hj1)
+        (wp_noYank (keeps_ring_refreshLine S U cfg) hn1) fun _ s2 h2 hi2 hj2 _ hn2 => ?_
+      refine wp_mono (safe_mainLoop S U cfg H K _ s2 h2 hi2 hj2 (fun _ => hn2.popOK)) ?_ (fun _ _ h => h)
       intro _ s3 h3
       exact wp_mono (safe_editMove S U cfg (lmsafe_moveBufferEnd S U) h3.1) (fun _ _ _ => trivial) (fun _ _ h => PE.of_ne h)
     simp only []
     split
     · have hb : IsBoundary (left ++ right) (blen left) := isBoundary_mid left right
       rw [wp_bind]
-      refine rsafe_rij cfg (rt_lb S U cfg _) hi0
-        (wp_lb_update_inv S U cfg hb h0 fun _ h1 _ _ => h1) (K.initText _ _ _ hj0) fun _ s1 h1 hi1 hj1 _ => ?_
-      have t := rest s1 h1 hi1 hj1
+      refine rsafe_rijx cfg (rt_lb S U cfg _) hi0
+        (wp_lb_update_inv S U cfg hb h0 fun _ h1 _ _ => h1) (K.initText _ _ _ hj0)
+        (wp_noYank (keeps_ring_lb S U _) hn0) fun _ s1 h1 hi1 hj1 _ hn1 => ?_
+      have t := rest s1 h1 hi1 hj1 hn1
       simp only [wp_bind] at t ⊢
       exact t
-    · have t := rest _ h0 hi0 hj0
+    · have t := rest _ h0 hi0 hj0 hn0
       simp only [wp_bind] at t ⊢
       exact t
   unfold readline
